@@ -67,6 +67,11 @@ def apply(ctx, ba, model, op, idx, val=None):
         if valid_idx and ok_val:
             ctx.check(raised is None, f"valid assignment rejected {where}", exc=repr(raised))
             model[idx] = int(val)
+        elif valid_idx and isinstance(val, float) and val in (0.0, 1.0):
+            # another spelling of 0 / 1: refusing it or writing that bit are both within the statement
+            if raised is None:
+                model[idx] = int(val)
+            ctx.count("float_spellings_of_0_and_1")
         else:
             ctx.count("rejections_expected")
             ctx.check(raised is not None, f"invalid index or value accepted {where}")
@@ -116,6 +121,9 @@ def wl_exhaustive(ctx, rng, case):
         for idx in idxs:
             for op, val in (("set_bit", None), ("clear_bit", None), ("setitem", 0), ("setitem", 1), ("setitem", True),
                             ("setitem", False), ("setitem", 2), ("setitem", -1), ("setitem", 255),
+                            # values that are neither 0 nor 1 although they lie between them / truncate to them / spell them
+                            ("setitem", 0.5), ("setitem", 1.5), ("setitem", -0.5), ("setitem", 0.999), ("setitem", float("nan")),
+                            ("setitem", "1"), ("setitem", "0"), ("setitem", None), ("setitem", 1.0), ("setitem", 0.0), ("setitem", 2.0),
                             ("check_bit", None), ("is_bit_set", None), ("getitem", None)):
                 ba = _mk(n, st)
                 model = list(st)
@@ -152,7 +160,7 @@ def wl_random(ctx, rng, case):
         elif r < 0.5:
             op, val = "clear_bit", None
         elif r < 0.8:
-            op, val = "setitem", rng.choice([0, 1, 0, 1, 0, 1, True, False, 2, -1, 3])
+            op, val = "setitem", rng.choice([0, 1, 0, 1, 0, 1, 0, 1, True, False, 2, -1, 3, 0.5, 1.5, -0.25, "1", None, 1.0])
         elif r < 0.97:
             op, val = rng.choice(["check_bit", "is_bit_set", "getitem"]), None
         else:
